@@ -223,7 +223,8 @@ def h_inductive(E):
     return err or 'ok'
 
 
-HIST = ['x+y', 'x + y', 'f(x)', 'f(x', '2k+k', 'x(', "x'", 'x_1+x', '1+', 'sin(f)+f', '', 'e1+1e1', '[x,y]', 'x\t_1+x', 'x\t+\ty', '2\tk+k', 'x\xa0+y']
+DEEP = 'x+' + '(' * 150 + 'f(x)' + ')' * 150      # beyond the depth the parser can reach under the recursion limit set in h_history
+HIST = [DEEP, 'x+y', 'x + y', 'f(x)', 'f(x', '2k+k', 'x(', "x'", 'x_1+x', '1+', 'sin(f)+f', '', 'e1+1e1', '[x,y]', 'x\t_1+x', 'x\t+\ty', '2\tk+k', 'x\xa0+y']
 
 
 def _outcome(parser_parse, s):
@@ -233,9 +234,21 @@ def _outcome(parser_parse, s):
         return ('ok', ppshim.tree_repr(r.tree), sorted(r.variables_used), sorted(r.functions_used), sorted(r.suffixes_used))
     except CalcError as e:
         return ('err', type(e).__name__, str(e))
+    except RecursionError:
+        return ('err', 'RecursionError', '')          # nesting beyond the interpreter's depth: an outcome like any other - and it must leave nothing behind
 
 
 def h_history(E, length):
+    import sys
+    old = sys.getrecursionlimit()
+    sys.setrecursionlimit(1200)          # the interpreter default is 1000; DEEP exceeds either
+    try:
+        return _history(E, length)
+    finally:
+        sys.setrecursionlimit(old)
+
+
+def _history(E, length):
     import mitxgraders.helpers.calc.expressions as X
     from mitxgraders.exceptions import MITxError
     X.PARSER.cache = {}
